@@ -38,7 +38,7 @@ ASSUMPTIONS = ['numbers are abstract tokens: the model is compared with the impl
                'set(edge_colors) iterates in an unspecified order: marker definitions are compared as a multiset',
                'np.argsort returns some sorting permutation (edges with equal colour are drawn in an unspecified order)',
                'Spring().fit_transform, cut_straight and Louvain are external (their outputs are inputs of the model)',
-               'stored weights are non-negative; CSR input has no duplicate entries',
+               'CSR input has no duplicate entries',
                'exact rationals for positions and sizes: dyadic inputs, so the coincidence test on rescaled positions '
                'is the same in float64 and in Q',
                'the XML recogniser accepts a subset of XML 1.0 (no prolog / comments / PI / CDATA, ASCII names); expat '
